@@ -93,6 +93,12 @@ def ops(tier, cfg):
             tr = tr[:6]
         for (M, N) in tr:
             L.append((f"transpose[{t}|{M}x{N}]", t, (M, N), t, (1,), t, (N, M), "r = transpose(a);", False, True))
+        # the lazy spelling writes straight into the destination (a map over an unaligned buffer must not see aligned stores): shapes that reach
+        # the blocked kernel with whole vectors in both directions
+        for (M, N) in [(3, 5), (2 * W, W), (W, 2 * W), (2 * W, 2 * W + 1)] + ([(3 * W, 2 * W), (W + 1, 2 * W)] if tier == "thorough" else []):
+            L.append((f"trans_lazy[{t}|{M}x{N}]", t, (M, N), t, (1,), t, (N, M), "r = trans(a);", False, True))
+            if (M, N) == (2 * W, W):
+                L.append((f"trans_lazy_add[{t}|{M}x{N}]", t, (M, N), t, (1,), t, (N, M), "r += trans(a);", False, True))
         if fp:
             for n in (2, 3, 4, 5):
                 L.append((f"inverse[{t}|{n}]", t, (n, n), t, (1,), t, (n, n), "r = inverse(a);", True, False))
